@@ -9,6 +9,7 @@ import (
 	"fmt"
 	"io"
 	"math"
+	"strings"
 	"testing"
 
 	"github.com/AdguardTeam/golibs/ioutil"
@@ -96,12 +97,12 @@ func (s *scriptReader) Read(p []byte) (int, error) {
 }
 
 type readCase struct {
-	Stream int   `json:"stream_len"`
-	Limit  int   `json:"limit"`
+	Stream int `json:"stream_len"`
+	Limit  int `json:"limit"`
 	// Huge, when non-zero, replaces Limit: limits around 2^63 and 2^64 ("unlimited")
-	Huge uint64 `json:"huge_limit"`
-	Bufs   []int `json:"buf_sizes"`
-	Script []int `json:"reader_script"`
+	Huge   uint64 `json:"huge_limit"`
+	Bufs   []int  `json:"buf_sizes"`
+	Script []int  `json:"reader_script"`
 }
 
 func stream(n int) []byte {
@@ -242,6 +243,107 @@ func runWrite(c writeCase) (what string, calls int) {
 	return "", calls
 }
 
+// ---- nested and sibling limited readers
+
+type nestNode struct {
+	Parent int `json:"parent"` // -1: the monitored source
+	Limit  int `json:"limit"`
+}
+
+type nestCall struct {
+	Node int `json:"node"`
+	Buf  int `json:"buf"`
+}
+
+// nestCase is a tree of LimitReaders over one monitored source.  A reader is
+// created when it is first used, so siblings are created at different fill
+// levels of their common parent.
+type nestCase struct {
+	Stream int        `json:"stream_len"`
+	Nodes  []nestNode `json:"nodes"`
+	Calls  []nestCall `json:"calls"`
+	Script []int      `json:"reader_script"`
+}
+
+// runNested checks every call against what the statement says about each
+// level: a reader never delivers more than its own limit nor more than any
+// reader it reads through has left, the source is never asked for more than
+// the smallest remainder on the path, all delivered bytes taken together are
+// the stream's prefix in call order, and an exhausted reader answers with its
+// own limit in the error.
+func runNested(c nestCase) (what string, calls int) {
+	src := &scriptReader{stream: stream(c.Stream), script: c.Script, limit: math.MaxUint64}
+	readers := make([]io.Reader, len(c.Nodes))
+	done := make([]int, len(c.Nodes)) // bytes delivered through each node
+	var get func(i int) io.Reader
+	get = func(i int) io.Reader {
+		if readers[i] == nil {
+			var parent io.Reader = src
+			if c.Nodes[i].Parent >= 0 {
+				parent = get(c.Nodes[i].Parent)
+			}
+			readers[i] = ioutil.LimitReader(parent, uint64(c.Nodes[i].Limit))
+		}
+		return readers[i]
+	}
+	total := 0
+	for ci, call := range c.Calls {
+		rd := get(call.Node)
+		// the path from the called reader up to the source
+		minRem, exhausted := math.MaxInt, -1
+		for i := call.Node; i >= 0; i = c.Nodes[i].Parent {
+			rem := c.Nodes[i].Limit - done[i]
+			if rem <= 0 && exhausted < 0 {
+				exhausted = i
+			}
+			minRem = min(minRem, rem)
+		}
+		src.limit = src.returned + uint64(max(minRem, 0))
+		src.called = false
+		p := bytes.Repeat([]byte{0xEE}, call.Buf)
+		n, err := rd.Read(p)
+		calls++
+		pre := fmt.Sprintf("call %d (reader #%d, buffer %d)", ci, call.Node, call.Buf)
+		if len(src.problems) > 0 {
+			return pre + ": " + strings.Replace(src.problems[0], "of the limit left", "left on the path of limited readers", 1), calls
+		}
+		if exhausted >= 0 {
+			var le *ioutil.LimitError
+			lim := uint64(c.Nodes[exhausted].Limit)
+			if n != 0 || !errors.As(err, &le) || le == nil || le.Limit != lim {
+				return fmt.Sprintf("%s: reader #%d on the path has delivered its %d bytes: got (%d, %v), want (0, *LimitError{Limit:%d})", pre, exhausted, lim, n, err, lim), calls
+			}
+			if src.called {
+				return pre + ": the source was read although a limited reader on the path is used up", calls
+			}
+			continue
+		}
+		if !src.called {
+			if n != 0 || err != nil {
+				return fmt.Sprintf("%s: source not consulted although %d bytes remain on the path, yet the caller got (%d, %v)", pre, minRem, n, err), calls
+			}
+			continue
+		}
+		if n != src.lastN || err != src.lastErr {
+			return fmt.Sprintf("%s: the source returned (%d, %v) but the caller got (%d, %v)", pre, src.lastN, src.lastErr, n, err), calls
+		}
+		if n < 0 || n > len(p) || n > minRem {
+			return fmt.Sprintf("%s: n=%d with a buffer of %d and %d bytes left on the path", pre, n, len(p), minRem), calls
+		}
+		if !bytes.Equal(p[:n], src.stream[total:total+n]) {
+			return fmt.Sprintf("%s: delivered %q, the stream continues with %q", pre, p[:n], src.stream[total:total+n]), calls
+		}
+		total += n
+		for i := call.Node; i >= 0; i = c.Nodes[i].Parent {
+			done[i] += n
+		}
+		if uint64(total) != src.returned {
+			return fmt.Sprintf("%s: the source has handed out %d bytes, the callers received %d", pre, src.returned, total), calls
+		}
+	}
+	return "", calls
+}
+
 func TestReader(t *testing.T) {
 	r := mon.Start("C15", "reader")
 	var rc readCase
@@ -249,7 +351,14 @@ func TestReader(t *testing.T) {
 		if err != nil {
 			t.Fatal(err)
 		}
-		if w, n := runRead(rc); w != "" {
+		var nc nestCase
+		if ok2, _ := mon.ReplayCase("reader", &nc); ok2 && len(nc.Nodes) > 0 {
+			if w, n := runNested(nc); w != "" {
+				r.Violation("replay", w, nc)
+			} else {
+				r.Eval(int64(n))
+			}
+		} else if w, n := runRead(rc); w != "" {
 			r.Violation("replay", w, rc)
 		} else {
 			r.Eval(int64(n))
@@ -323,6 +432,46 @@ func TestReader(t *testing.T) {
 	}
 	r.Eval(he)
 	r.Count("reader_huge_limit_calls", he)
+	// trees of limited readers over one source: chains, siblings sharing a parent, readers created late
+	nn := r.Pick(300_000, 20_000_000)
+	mon.Parallel(nn, func(w, lo, hi int) {
+		rng := r.Rand(uint64(7000 + w))
+		var evals, shared int64
+		for i := lo; i < hi; i++ {
+			c := nestCase{Stream: rng.IntN(10)}
+			k := 2 + rng.IntN(3)
+			for j := 0; j < k; j++ {
+				c.Nodes = append(c.Nodes, nestNode{Parent: rng.IntN(j+1) - 1, Limit: rng.IntN(7)})
+			}
+			for j := 0; j < 3+rng.IntN(6); j++ {
+				c.Calls = append(c.Calls, nestCall{Node: rng.IntN(k), Buf: []int{1, 2, 3, 8}[rng.IntN(4)]})
+				c.Script = append(c.Script, []int{rFull, rFull, rShort, rDataEOF, rDataErr, rErr, rZero}[rng.IntN(7)])
+			}
+			what, calls := runNested(c)
+			evals += int64(calls)
+			kids := map[int]int{}
+			for _, nd := range c.Nodes {
+				kids[nd.Parent]++
+			}
+			for pa, cnt := range kids {
+				if pa >= 0 && cnt >= 2 {
+					shared++
+					break
+				}
+			}
+			if what != "" {
+				r.Violation(fmt.Sprintf("reader-nested:%v", c), fmt.Sprintf("LimitReaders %+v (parent -1 = the source of %d bytes), calls %+v, source script %v: %s", c.Nodes, c.Stream, c.Calls, names(c.Script, rKindNames), what), c)
+				if r.TooMany() {
+					break
+				}
+			}
+		}
+		r.Eval(evals)
+		r.NontrivialN(shared)
+		r.Count("reader_tree_histories", int64(hi-lo))
+		r.Count("reader_tree_histories_with_siblings_sharing_a_limited_parent", shared)
+	})
+	r.Sample(nestCase{Stream: 6, Nodes: []nestNode{{-1, 4}, {0, 3}, {0, 3}}, Calls: []nestCall{{1, 8}, {2, 8}, {0, 1}}, Script: []int{rFull, rFull, rFull}})
 	// deep random runs
 	nr := r.Pick(50_000, 2_000_000)
 	mon.Parallel(nr, func(w, lo, hi int) {
